@@ -224,7 +224,11 @@ def diff_dicts(a, b, path="", config=None):
             if dd:
                 di.patch(key, dd)
         else:
-            if (path or '/') in config.predicates:
+            # Only complain about predicates configured for this path: an entry
+            # equal to the plain default may merely have been cached when a list
+            # was looked up at the same starred path earlier (lookups insert).
+            predicates = config.predicates.get(path or '/')
+            if predicates is not None and list(predicates) != [operator.__eq__]:
                 # Could also this a warning, but I think it shouldn't be done
                 raise RuntimeError(
                     "Found predicate(s) for path {} pointing to dict entry.".format(
